@@ -243,6 +243,7 @@ func (p *Parser) parseGroupingSets() []ast.Expression {
 	}
 
 	for !p.currentIs(token.RPAREN) && !p.currentIs(token.EOF) {
+		startPos := p.current.Pos
 		// Each element in GROUPING SETS is a tuple or a single expression
 		if p.currentIs(token.LPAREN) {
 			// Parse as tuple
@@ -259,6 +260,10 @@ func (p *Parser) parseGroupingSets() []ast.Expression {
 		// Skip comma if present
 		if p.currentIs(token.COMMA) {
 			p.nextToken()
+		}
+		// If we didn't advance, break to avoid infinite loop
+		if p.current.Pos == startPos {
+			break
 		}
 	}
 
